@@ -202,3 +202,26 @@ def run(ctx):
             perturb(r, s, p)
         ops.append(op(sig_fields(**s), pkt_fields(**p), r.choice([35, 35, 35, 0, 5, 255, -1])))
     ctx.correspond(ops, nontrivial=nontriv, label="random")
+    # 5. one signature object evaluated, edited in place (as code holding a database record can do), evaluated again:
+    #    the verdict follows the object's current fields, for either IP family and both orders
+    ops = []
+    for _ in range(ctx.n(15000, 300000)):
+        p = gens.rand_pkt(r)
+        a = sig_from_pkt(r, p)
+        b = dict(a)
+        k = r.choice(["quirks", "quirks", "ttl", "ver", "win", "mss"])
+        if k == "quirks":
+            b["quirks"] = a["quirks"] ^ (1 << r.randrange(17))
+        elif k == "ttl":
+            b["ttl"] = r.choice([1, 64, 255, max(1, p["ttl"])])
+        elif k == "ver":
+            b["ver"] = r.choice([4, 6, -1])
+        elif k == "win":
+            b["wtype"], b["wsize"] = 0, p["win"]
+        else:
+            b["mss"] = r.choice([-1, p["mss"], 1460])
+        if r.random() < 0.5:
+            a, b = b, a
+        d = r.choice([35, 35, 0, 255])
+        ops.append("\t".join(["match2"] + sig_fields(**a) + pkt_fields(**p) + [str(d)] + sig_fields(**b)))
+    ctx.correspond(ops, nontrivial=lambda l, a: True, label="edited-in-place")
